@@ -293,11 +293,11 @@ class ParseStream(runner.Stream):
         t = req.split(" ")
         if t[1] != "rt":
             # corpus: correspondence only; the front end must not panic on the project's own texts
-            if ans in ("panic", "abort"):
+            if ans in ("panic", "abort", "hang"):
                 return "front end panics on a test text of the project"
             return None
         exp_u, exp_r, fam = t[3], t[4], t[5]
-        if ans in ("panic", "abort"):
+        if ans in ("panic", "abort", "hang"):
             return "front end panics"
         if exp_u == "!err":
             if ans.startswith("err "):
